@@ -296,6 +296,20 @@ OpDSRead(U, src, nsarg) ==
              U3 == IF src.trees = <<>> THEN U2
                    ELSE [rt.u EXCEPT !.lists = Append(@, [ns |-> n, trees |-> rt.ids]), !.ds.lists = Append(@, Len(U2.lists) + 1)]
          IN COk(U3)
+\* a source with several taxa blocks (NeXML <otus> + <trees>): blocks = Seq([taxa, trees]); every block is read into
+\* the attached / given namespace, or into a namespace of its own
+RECURSIVE ReadBlocks(_, _, _)
+ReadBlocks(U, bs, nfix) ==
+    IF bs = <<>> THEN U
+    ELSE LET U0 == IF nfix = 0 THEN NewNs(U) ELSE U
+             n == IF nfix = 0 THEN Len(U0.ns) ELSE nfix
+             U1 == ReqAll(U0, n, Head(bs).taxa, <<>>).u
+             rt == ReadTrees(U1, n, Head(bs).trees, <<>>)
+             U2 == [rt.u EXCEPT !.lists = Append(@, [ns |-> n, trees |-> rt.ids]), !.ds.lists = Append(@, Len(U1.lists) + 1)]
+         IN ReadBlocks(U2, Tail(bs), nfix)
+OpDSReadBlocks(U, blocks, nsarg) ==
+    IF U.ds.att # 0 /\ nsarg # 0 /\ nsarg # U.ds.att THEN CErr(U, "ValueError")
+    ELSE COk(ReadBlocks(U, blocks, IF U.ds.att # 0 THEN U.ds.att ELSE nsarg))
 OpDSAddList(U, l) == IF U.ds.att # 0 /\ U.lists[l].ns # U.ds.att /\ ~ShipDsAdd THEN CErr(U, "TypeError")
                    ELSE COk(IF l \in SeqToSet(U.ds.lists) THEN U ELSE [U EXCEPT !.ds.lists = Append(@, l)])
 OpDSAddMat(U, m) == IF U.ds.att # 0 /\ U.mats[m].ns # U.ds.att /\ ~ShipDsAdd THEN CErr(U, "TypeError")
@@ -375,6 +389,10 @@ Guard(U, a, x) ==     \* on a sane universe (Sane is checked separately: invaria
       [] a = "CMClone"         -> HasMat(U, x.m) /\ NsArgOk(U, x.nsarg)
       [] a = "DSRead"          -> NsArgOk(U, x.nsarg) /\
                                   SrcOk(x.src, IF U.ds.att # 0 THEN U.ns[U.ds.att].cs ELSE CsOfArg(U, x.nsarg))
+      [] a = "DSReadBlocks"    -> NsArgOk(U, x.nsarg) /\ \A i \in 1..Len(x.blocks) :
+                                      /\ x.blocks[i].trees # <<>>
+                                      /\ SrcOk([taxa |-> x.blocks[i].taxa, rows |-> <<>>, trees |-> x.blocks[i].trees],
+                                               IF U.ds.att # 0 THEN U.ns[U.ds.att].cs ELSE CsOfArg(U, x.nsarg))
       [] a = "DSAddList"       -> HasList(U, x.l)
       [] a = "DSAddMat"        -> HasMat(U, x.m)
       [] a = "DSNewList"       -> NsArgOk(U, x.nsarg)
@@ -421,6 +439,7 @@ Apply(U, a, x) ==
       [] a = "CMFromDict"      -> OpCMFromDict(U, x.keys, x.nsarg)
       [] a = "CMClone"         -> OpCMClone(U, x.m, x.nsarg)
       [] a = "DSRead"          -> OpDSRead(U, x.src, x.nsarg)
+      [] a = "DSReadBlocks"    -> OpDSReadBlocks(U, x.blocks, x.nsarg)
       [] a = "DSAddList"       -> OpDSAddList(U, x.l)
       [] a = "DSAddMat"        -> OpDSAddMat(U, x.m)
       [] a = "DSNewList"       -> OpDSNewList(U, x.nsarg)
@@ -483,6 +502,10 @@ Moves(P, a, x, Q) ==
                                   (IF x.src.trees = <<>> THEN <<>> ELSE MvSrc(P, Q, Y, x.src.trees, TreesAt(Q, NewListId(P), 1, Len(x.src.trees))))
                                   \o (IF x.src.rows = <<>> THEN <<>>
                                       ELSE <<Mv(Y, "bylabel", x.src.rows, [i \in 1..Len(x.src.rows) |-> 0], RowsOf(Q, Len(P.mats) + 1), FALSE)>>)
+      [] a = "DSReadBlocks"    -> LET fix == IF P.ds.att # 0 THEN P.ds.att ELSE x.nsarg IN
+                                  Concat([b \in 1..Len(x.blocks) |->
+                                      MvSrc(P, Q, IF fix # 0 THEN fix ELSE Len(P.ns) + b, x.blocks[b].trees,
+                                            TreesAt(Q, Len(P.lists) + b, 1, Len(x.blocks[b].trees)))])
       [] a = "DSUnify"         -> LET Y == NsArg(P, x.nsarg, Len(P.ns) + 1)
                                       ts == Concat([i \in 1..Len(P.ds.lists) |-> P.lists[P.ds.lists[i]].trees])
                                   IN <<MvTrees(P, Q, Y, "bylabel", ts, ts)>>
